@@ -19,7 +19,8 @@ FIELD_NAMES = ['x', 'y', 'my_field', 'other_name', 'tag', 'val', 'zz']
 
 
 class Gen:
-    def __init__(self, seed, max_depth=3, classes=True):
+    def __init__(self, seed, max_depth=3, classes=True, noinit=True):
+        self.noinit = noinit
         self.r = random.Random(seed)
         self.max_depth = max_depth
         self.decl = {'enums': [], 'subs': [], 'classes': []}
@@ -263,6 +264,8 @@ class Gen:
                 spec['kw_only'] = True
                 if 'tuple' in in_format:
                     has_default = True
+            if self.noinit and r.random() < 0.08:
+                spec['init'] = False
             if has_default:
                 if r.random() < 0.25:
                     f['default'] = {'factory': 'list'}
@@ -480,7 +483,8 @@ def scenarios_conv(seed, n, op='from_data', max_depth=3, classes=True):
     g = random.Random(seed)
     out = []
     for i in range(n):
-        gen = Gen(g.randrange(1 << 62), max_depth=g.choice([1, 2, 2, 3, max_depth]), classes=classes)
+        gen = Gen(g.randrange(1 << 62), max_depth=g.choice([1, 2, 2, 3, max_depth]), classes=classes,
+                  noinit=op not in ('roundtrip', 'into_data'))
         ty = gen.gen_type(0, lit_ok=True)
         p = gen.r.random()
         try:
@@ -868,4 +872,110 @@ def scenarios_tagged(seed, n):
             continue
         op = r.choice(['from_data', 'from_data', 'try_collect', 'roundtrip'])
         out.append({'id': f't{seed}:{i}', 'decl': ge.decl, 'op': op, 'ty': ty, 'val': wire, 'spell': r.randrange(2), 'stream': 'tagged'})
+    return out
+
+
+def scenarios_valuesem(seed, n):
+    """C16: option cube x per-field flags x instance pairs (cmp / repr / setattr / delattr / copy / replace / dictview)"""
+    g = random.Random(seed)
+    out = []
+    i = 0
+    while len(out) < n:
+        i += 1
+        hg = HierGen(g.randrange(1 << 62), max_depth=1, classes=False)
+        r = hg.r
+        name = hg.fresh('S')
+        generic = r.random() < 0.25
+        opts = {}
+        for k in ('eq', 'order', 'frozen', 'unsafe_hash'):
+            if r.random() < 0.25:
+                opts[k] = r.random() < 0.5
+        d = {'name': name, 'fields': [], 'opts': opts, 'hook': None}
+        if generic:
+            d['tvars'] = ['T']
+        fnames = r.sample(['x', 'y', 'zz', 'val'], r.randint(1, 4))
+        ftys = []
+        for fn in fnames:
+            ty = r.choice(['int', 'str', 'float', {'tuple': ['int', 'str']}, 'bool'])
+            if generic and r.random() < 0.4:
+                ty = tv('T')
+            f = {'name': fn, 'ty': ty, 'default': {'value': ENC.enc(hg.valid(ty if not (isinstance(ty, dict) and 'typevar' in ty) else 'int', 2))}}
+            spec = {}
+            for flag in ('compare', 'repr'):
+                if r.random() < 0.15:
+                    spec[flag] = False
+            if r.random() < 0.08:
+                spec['hash'] = r.random() < 0.5
+            if r.random() < 0.08:
+                spec['exclude'] = True
+            if spec:
+                f['spec'] = spec
+            d['fields'].append(f)
+            ftys.append(ty if not (isinstance(ty, dict) and 'typevar' in ty) else 'int')
+        eq_opt = opts.get('eq', True)
+        order_opt = opts.get('order', True)
+        frozen = opts.get('frozen', True)
+        decl = {'enums': [], 'subs': [], 'classes': [d]}
+        # pool of instances colliding on prefixes
+        base = [hg.valid(t, 2) for t in ftys]
+        for k, t in enumerate(ftys):
+            if t == 'float' and (base[k] != base[k] or base[k] in (float('inf'), float('-inf'))):
+                base[k] = 1.5
+            if t == {'tuple': ['int', 'str']}:
+                base[k] = tuple(base[k])
+        pool = []
+        for _ in range(r.randint(2, 4)):
+            vals = list(base)
+            for k in range(len(vals)):
+                if r.random() < 0.35:
+                    v = hg.valid(ftys[k], 2)
+                    if isinstance(v, float) and (v != v or v in (float('inf'), float('-inf'))):
+                        v = 0.5
+                    vals[k] = tuple(v) if isinstance(v, list) else v
+            setf = [fn for fn in fnames if r.random() < 0.6]
+            pool.append({'obj': [name, [[fn, ENC.enc(v)] for fn, v in zip(fnames, vals)], setf]})
+        keys = [name] * len(pool)
+        tys = []
+        if generic and r.random() < 0.6:
+            tys = [{'cls': [name, ['int']]}]
+            keys = [r.choice([name, name + '[int]']) for _ in pool]
+        sc0 = {'decl': decl, 'spell': 0, 'stream': 'valuesem', 'tys': tys}
+        a, b = r.randrange(len(pool)), r.randrange(len(pool))
+        op = r.choice(['cmp', 'cmp', 'cmp', 'repr', 'setattr', 'delattr', 'copy', 'replace', 'dictview'])
+        sc = dict(sc0, id=f'v{seed}:{i}', op=op)
+        if op == 'cmp':
+            sc.update(a=pool[a], b=pool[b], akey=keys[a], bkey=keys[b], eq_opt=eq_opt, order_opt=order_opt,
+                      pool=[[x, k] for x, k in zip(pool, keys)])
+        elif op == 'repr':
+            sc.update(a=pool[a], akey=name)
+        elif op in ('setattr', 'delattr'):
+            sc.update(cls=name, obj=pool[a], name=r.choice(fnames), val=ENC.enc(hg.valid(ftys[0], 2) if r.random() < 0.5 else 'zz'), frozen=frozen)
+        elif op == 'copy':
+            sc.update(cls=name, obj=pool[a], deep=r.random() < 0.5)
+        elif op == 'replace':
+            k = r.randrange(len(fnames))
+            v = hg.valid(ftys[k], 2) if r.random() < 0.7 else hg.rscalar()
+            try:
+                sc.update(cls=name, obj=pool[a], kwargs=[[fnames[k], ENC.enc(v)]])
+            except Exception:
+                continue
+        else:
+            sc.update(cls=name, obj=pool[a], set_only=r.random() < 0.5, rename=r.choice([None, None, 'camel', 'scream', 'pascal']))
+        out.append(sc)
+    return out
+
+
+def scenarios_hashtable(seed, n=0):
+    """the full (unsafe_hash, eq, frozen, explicit __hash__) cube through class creation"""
+    out = []
+    n = 0
+    for u in (False, True):
+        for e in (False, True):
+            for f in (False, True):
+                for x in (False, True):
+                    n += 1
+                    d = {'name': f'Hc{n}', 'fields': [{'name': 'x', 'ty': 'int', 'default': {'value': {'i': '0'}}}],
+                         'opts': {'unsafe_hash': u, 'eq': e, 'frozen': f}, 'hook': None, 'explicit_hash': x}
+                    out.append({'id': f'h{n}', 'decl': {'enums': [], 'subs': [], 'classes': []}, 'op': 'process', 'decls': [d],
+                                'explicit_hash': x, 'stream': 'hashcube', 'spell': 0})
     return out
